@@ -308,6 +308,10 @@ pub struct ChainBuilder {
     base: PathBuf,
     counter: usize,
     pub max_branch_stores: usize,
+    /// args of the miner lock (always-success script) put into the cellbase witness of the blocks
+    /// built from now on; empty = the plain always-success script. Distinct args give distinct
+    /// miner locks, so forks can pay different miners (set before `build`).
+    pub miner_args: Vec<u8>,
 }
 
 impl ChainBuilder {
@@ -316,7 +320,7 @@ impl ChainBuilder {
         let g = consensus.genesis_block().clone();
         blocks.insert(g.hash(), g);
         std::fs::create_dir_all(base).unwrap();
-        ChainBuilder { consensus, blocks, branches: vec![], base: base.to_path_buf(), counter: 0, max_branch_stores: 6 }
+        ChainBuilder { consensus, blocks, branches: vec![], base: base.to_path_buf(), counter: 0, max_branch_stores: 6, miner_args: Vec::new() }
     }
 
     pub fn genesis(&self) -> BlockView {
@@ -456,8 +460,13 @@ impl ChainBuilder {
 
         // cellbase
         let (_, _, always_success_script) = always_success_cell();
+        let miner_lock = if self.miner_args.is_empty() {
+            always_success_script.clone()
+        } else {
+            always_success_script.clone().as_builder().args(Bytes::from(self.miner_args.clone()).pack()).build()
+        };
         let witness = packed::CellbaseWitness::new_builder()
-            .lock(always_success_script.clone())
+            .lock(miner_lock)
             .message(Bytes::from(spec.salt.to_le_bytes().to_vec()).pack())
             .build();
         let mut cb = TransactionBuilder::default().input(CellInput::new_cellbase_input(number)).witness(witness.as_bytes().pack());
